@@ -5,12 +5,18 @@ package f3
 
 import (
 	"context"
+	"fmt"
+	"sort"
+	"strings"
 
 	"github.com/filecoin-project/go-f3/certstore"
 	"github.com/filecoin-project/go-f3/ec"
 	"github.com/filecoin-project/go-f3/gpbft"
 	"github.com/filecoin-project/go-f3/internal/clock"
+	"github.com/filecoin-project/go-f3/internal/writeaheadlog"
 	"github.com/filecoin-project/go-f3/manifest"
+	pubsub "github.com/libp2p/go-libp2p-pubsub"
+	"github.com/libp2p/go-libp2p/core/peer"
 )
 
 // VerifInputs exposes the unexported consensus-inputs component (proposal and committee derivation).
@@ -26,4 +32,91 @@ func (v *VerifInputs) GetProposal(ctx context.Context, instance uint64) (*gpbft.
 
 func (v *VerifInputs) GetCommittee(ctx context.Context, instance uint64) (*gpbft.Committee, error) {
 	return v.in.GetCommittee(ctx, instance)
+}
+
+// ---- C12: the broadcast path (filter -> WAL -> publish) and its restart behaviour ---------------------------
+
+// VerifRunner wraps the production gpbftRunner built by newRunner over a real WAL directory; only the
+// outbound path is exercised (BroadcastMessage / RequestRebroadcast / Stop), the participant is never started.
+type VerifRunner struct{ r *gpbftRunner }
+
+func VerifNewRunner(ctx context.Context, cs *certstore.Store, e ec.Backend, ps *pubsub.PubSub, v gpbft.Verifier,
+	m manifest.Manifest, walDir string, pid peer.ID) (*VerifRunner, error) {
+	wal, err := writeaheadlog.Open[walEntry, *walEntry](walDir)
+	if err != nil {
+		return nil, err
+	}
+	out := make(chan *gpbft.MessageBuilder, 64)
+	r, err := newRunner(ctx, cs, e, ps, v, out, m, wal, pid)
+	if err != nil {
+		return nil, err
+	}
+	if err := r.setupPubsub(); err != nil {
+		return nil, err
+	}
+	// Inbound validation is not under test here: the harness observes the wire through a default
+	// validator of its own, so the runner's topic validator (which needs a started participant) is removed.
+	_ = ps.UnregisterTopicValidator(m.PubSubTopic())
+	return &VerifRunner{r: r}, nil
+}
+
+func (v *VerifRunner) Broadcast(ctx context.Context, msg *gpbft.GMessage) error {
+	return v.r.BroadcastMessage(ctx, msg)
+}
+
+func (v *VerifRunner) Rebroadcast(instant gpbft.Instant) error {
+	return (*gpbftHost)(v.r).RequestRebroadcast(instant)
+}
+
+func (v *VerifRunner) Stop(ctx context.Context) error { return v.r.Stop(ctx) }
+
+// DumpState renders the in-memory anti-equivocation state (filter + rebroadcast store) canonically.
+func (v *VerifRunner) DumpState() string {
+	ef := &v.r.equivFilter
+	ef.lk.Lock()
+	defer ef.lk.Unlock()
+	var parts []string
+	for k, m := range ef.seenMessages {
+		parts = append(parts, fmt.Sprintf("seen:%d.%d.%d=%x@%v", k.Sender, k.Round, k.Phase, m.signature, m.origin == ef.localPID))
+	}
+	for id, s := range ef.activeSenders {
+		parts = append(parts, fmt.Sprintf("act:%d=%d,%v", id, len(s.origins), s.equivocation))
+	}
+	v.r.msgsMutex.Lock()
+	for inst, rp := range v.r.selfMessages {
+		for k, ms := range rp {
+			for _, mm := range ms {
+				parts = append(parts, fmt.Sprintf("self:%d.%d.%d.%d=%x", inst, k.round, k.phase, mm.Sender, mm.Signature))
+			}
+		}
+	}
+	v.r.msgsMutex.Unlock()
+	sort.Strings(parts)
+	return fmt.Sprintf("cur=%d|%s", ef.currentInstance, strings.Join(parts, ";"))
+}
+
+// VerifEquivFilter exposes the unexported equivocation filter for exhaustive state-space enumeration.
+type VerifEquivFilter struct{ f equivocationFilter }
+
+func VerifNewEquivFilter(pid peer.ID) *VerifEquivFilter {
+	return &VerifEquivFilter{f: newEquivocationFilter(pid)}
+}
+func (v *VerifEquivFilter) ProcessBroadcast(m *gpbft.GMessage) bool { return v.f.ProcessBroadcast(m) }
+func (v *VerifEquivFilter) ProcessReceive(p peer.ID, m *gpbft.GMessage) { v.f.ProcessReceive(p, m) }
+
+// Finalized models the arrival of the finality certificate for `instance` at the runner's finalize
+// goroutine (host.go, Start): the WAL is purged below instance-5 and the rebroadcast store is trimmed.
+// The purge itself is the production WriteAheadLog.Purge on the runner's own WAL handle.
+func (v *VerifRunner) Finalized(instance uint64) {
+	const keepInstancesInWAL = 5
+	if instance > keepInstancesInWAL {
+		_ = v.r.wal.Purge(instance - keepInstancesInWAL)
+	}
+	v.r.msgsMutex.Lock()
+	for i := range v.r.selfMessages {
+		if i < instance {
+			delete(v.r.selfMessages, i)
+		}
+	}
+	v.r.msgsMutex.Unlock()
 }
